@@ -1,6 +1,147 @@
 open Model
 open Zio
-(* po target steps fuel fault_t fault_p(-1 = none) nnodes then per node: kind(0 src|1 stage) spy k items... *)
+(* line protocols (all ints)
+
+   po target steps fuel fault_t fault_p(-1 = none) nnodes then per node: kind(0 src|1 stage) spy k items...
+        single-thread PostOffice model
+
+   net|netx <network> ...      the threaded mailbox network (Model/MailboxFail.v)
+     <network> = nmb {cap lazy nsubs drive*nsubs}*nmb
+                 nth {thread}*nth
+                 fault_tid(-1 = none) fault_pos fault_code
+                 cfault_chunk(-1 = none) cfault_close cfault_code
+                 fix1 fix2 fix3          (1 = the repaired code, see n_f1..n_f3 in Model/MailboxFail.v)
+                 nkill mb*nkill   njoin tid*njoin   nsav tid*nsav   main_tid
+     thread = 0 nsrc out nin {mb sub}*nin      stage (plugin / loader thread: Mailbox._send_from)
+            | 1 mb sub rechunk                 saver  (Saver.save_from)
+            | 2 mb sub                         discarder
+            | 3 mb sub nouts {mb ff}*nouts     divide_outputs
+            | 4 mb sub relay                   the caller (relay = through Context.get_iter)
+     net  <network> nsched tid*nsched
+          -> observation after each step separated by " | " (+ "DISABLED pos" if the thread scheduled at pos is
+             not enabled in the model) " # " T|N (all threads finished?) <outcome code> <enabled tids...>
+     netcover <network>   -> "<cover_b> <init_ok_b>" (premises of the shutdown theorem)
+     netx <network> maxstates
+          -> breadth-first enumeration of the reachable states:
+             nstates nedges truncated nfinal ndeadlock ; {summary of a final/deadlock state x count : schedule reaching it}*
+*)
+
+let rec read_n n f l = if n <= 0 then ([], l) else
+  let (x, r) = f l in let (xs, r') = read_n (n - 1) f r in (x :: xs, r')
+
+let read_mb = function
+  | cap :: lz :: ns :: r ->
+      let drives = take ns r in
+      (mk_mbox (nat_of_int cap) (lz <> 0) (List.map (fun d -> d <> 0) drives), drop ns r)
+  | _ -> failwith "mailbox"
+
+let pair_nat = function a :: b :: r -> ((nat_of_int a, nat_of_int b), r) | _ -> failwith "pair"
+
+let read_thread = function
+  | 0 :: nsrc :: out :: nin :: r ->
+      let (ins, r') = read_n nin pair_nat r in
+      (mk_thread (KStage (nat_of_int nsrc, nat_of_int out)) ins, r')
+  | 1 :: mb :: sub :: rc :: r -> (mk_thread (KSaver (rc <> 0)) [(nat_of_int mb, nat_of_int sub)], r)
+  | 2 :: mb :: sub :: r -> (mk_thread KDiscard [(nat_of_int mb, nat_of_int sub)], r)
+  | 3 :: mb :: sub :: nouts :: r ->
+      let (outs, r') = read_n nouts (function a :: b :: r -> ((nat_of_int a, b <> 0), r) | _ -> failwith "out") r in
+      (mk_thread (KDivider outs) [(nat_of_int mb, nat_of_int sub)], r')
+  | 4 :: mb :: sub :: relay :: r -> (mk_thread (KMain (relay <> 0)) [(nat_of_int mb, nat_of_int sub)], r)
+  | _ -> failwith "thread"
+
+let read_list = function n :: r -> (List.map nat_of_int (take n r), drop n r) | _ -> failwith "list"
+
+let read_net_raw l =
+  match l with
+  | nmb :: r ->
+      let (boxes, r) = read_n nmb read_mb r in
+      (match r with
+       | nth :: r ->
+           let (threads, r) = read_n nth read_thread r in
+           (match r with
+            | ft :: fp :: fc :: ck :: cc :: ce :: f1 :: f2 :: f3 :: r ->
+                let fault = if ft < 0 then None else Some ((nat_of_int ft, nat_of_int fp), nat_of_int fc) in
+                let cfault = if ck < 0 then None else Some ((nat_of_int ck, cc <> 0), nat_of_int ce) in
+                let (kill, r) = read_list r in
+                let (join, r) = read_list r in
+                let (sav, r) = read_list r in
+                (match r with
+                 | main :: r ->
+                     let nt = { n_fault = fault; n_cfault = cfault; n_kill = kill; n_join = join; n_savers = sav;
+                                n_f1 = (f1 <> 0); n_f2 = (f2 <> 0); n_f3 = (f3 <> 0) } in
+                     (nt, boxes, threads, main, r)
+                 | _ -> failwith "main")
+            | _ -> failwith "faults")
+       | _ -> failwith "nth")
+  | _ -> failwith "nmb"
+
+let read_net l =
+  let (nt, boxes, threads, main, r) = read_net_raw l in
+  (nt, ninit nt boxes threads, List.length threads, main, r)
+
+let obs_str nt st = String.concat " " (List.map (fun z -> string_of_int (int_of_z z)) (nobs nt st))
+let enabled_tids nt st n = List.filter (fun t -> nenabled nt st (nat_of_int t)) (List.init n (fun i -> i))
+
+let run_net nt st0 n main sched =
+  let rec go st pos sched acc =
+    match sched with
+    | [] -> (st, List.rev acc, None)
+    | t :: rest ->
+        (match nstep nt st (nat_of_int t) with
+         | Some st' -> go st' (pos + 1) rest (obs_str nt st' :: acc)
+         | None -> (st, List.rev acc, Some pos)) in
+  let (st, obs, dis) = go st0 0 sched [] in
+  let body = String.concat " | " (obs @ (match dis with Some p -> [Printf.sprintf "DISABLED %d" p] | None -> [])) in
+  let oc = int_of_z (outcome_code (main_outcome st (nat_of_int main))) in
+  body ^ " # " ^ (if all_terminal st then "T" else "N") ^ " " ^ string_of_int oc ^ " "
+  ^ join (enabled_tids nt st n) ^ " @ " ^ obs_str nt st0
+
+module SM = Map.Make (String)
+
+let explore nt st0 n main maxstates =
+  let key (st : nstate) = Marshal.to_string st [] in
+  let ids = ref (SM.singleton (key st0) 0) in
+  let tbl = Hashtbl.create 4096 in
+  let parent = Hashtbl.create 4096 in
+  Hashtbl.replace tbl 0 st0;
+  let cnt = ref 1 and nedges = ref 0 and truncated = ref false in
+  let q = Queue.create () in
+  Queue.add 0 q;
+  let finals = ref SM.empty in
+  let nfinal = ref 0 and ndead = ref 0 in
+  let rec path i acc = if i = 0 then acc else let (p, t) = Hashtbl.find parent i in path p (t :: acc) in
+  while not (Queue.is_empty q) do
+    let i = Queue.pop q in
+    let st = Hashtbl.find tbl i in
+    let en = enabled_tids nt st n in
+    if en = [] then begin
+      let term = all_terminal st in
+      if term then incr nfinal else incr ndead;
+      let oc = int_of_z (outcome_code (main_outcome st (nat_of_int main))) in
+      let s = (if term then "T " else "DEADLOCK ") ^ string_of_int oc ^ " " ^ obs_str nt st in
+      (match SM.find_opt s !finals with
+       | Some (c, p) -> finals := SM.add s (c + 1, p) !finals
+       | None -> finals := SM.add s (1, path i []) !finals)
+    end;
+    List.iter (fun t ->
+      match nstep nt st (nat_of_int t) with
+      | None -> ()
+      | Some st' ->
+          incr nedges;
+          let k = key st' in
+          (match SM.find_opt k !ids with
+           | Some _ -> ()
+           | None ->
+               let j = !cnt in
+               incr cnt; ids := SM.add k j !ids;
+               Hashtbl.replace parent j (i, t);
+               if !cnt <= maxstates then (Hashtbl.replace tbl j st'; Queue.add j q) else truncated := true)) en;
+    Hashtbl.remove tbl i
+  done;
+  let head = Printf.sprintf "%d %d %d %d %d" !cnt !nedges (if !truncated then 1 else 0) !nfinal !ndead in
+  let parts = SM.fold (fun s (c, p) acc -> (Printf.sprintf "%s x %d : %s" s c (join p)) :: acc) !finals [] in
+  String.concat " ; " (head :: List.rev parts)
+
 let handle toks =
   match toks with
   | "po" :: rest ->
@@ -24,6 +165,58 @@ let handle toks =
                else "") st |> List.filter (fun s -> s <> "")) in
            let whole_t = whole g comb_std (nat_of_int (nn + 1)) (nat_of_int target) in
            o ^ " | " ^ sp ^ " | whole " ^ String.concat "," (List.map (fun z -> string_of_int (int_of_z z)) whole_t)
+       | _ -> "BAD")
+  | "net" :: rest ->
+      let (nt, st0, n, main, r) = read_net (ints rest) in
+      (match r with
+       | ns :: sched -> run_net nt st0 n main (take ns sched)
+       | _ -> "BAD")
+  | "netcover" :: rest ->
+      (* the decidable premises of C06_noticed_failure_shuts_down on this network: "1 1" = both hold *)
+      let (nt, boxes, threads, main, _) = read_net_raw (ints rest) in
+      let st = { mbs = boxes; ths = threads } in
+      Printf.sprintf "%d %d" (if cover_b nt st (nat_of_int main) then 1 else 0) (if init_ok_b boxes threads then 1 else 0)
+  | "netdag" :: rest ->
+      (* netdag <network> N -> "<dag_ok_b> <fault_ok_b>" *)
+      let (nt, boxes, threads, main, r) = read_net_raw (ints rest) in
+      let st = { mbs = boxes; ths = threads } in
+      (match r with
+       | n :: _ -> Printf.sprintf "%d %d" (if dag_ok_b nt st (nat_of_int n) (nat_of_int main) then 1 else 0)
+                     (if fault_ok_b nt st (nat_of_int n) then 1 else 0)
+       | _ -> "BAD")
+  | "netdigest" :: rest ->
+      let (nt, st0, n, main, r) = read_net (ints rest) in
+      Digest.to_hex (Digest.string (Marshal.to_string (nt, st0) [Marshal.No_sharing])) ^ " " ^ string_of_int main
+  | "family" :: "chain" :: rest ->
+      (* family chain fx N lazy relay L caps*L nsav*L ft fp fc ck cc ce *)
+      (match ints rest with
+       | fx :: n :: lz :: relay :: l :: r ->
+           let caps = List.map nat_of_int (take l r) in
+           let nsav = List.map nat_of_int (take l (drop l r)) in
+           (match drop (2 * l) r with
+            | ft :: fp :: fc :: ck :: cc :: ce :: _ ->
+                let fault = if ft < 0 then None else Some ((nat_of_int ft, nat_of_int fp), nat_of_int fc) in
+                let cfault = if ck < 0 then None else Some ((nat_of_int ck, cc <> 0), nat_of_int ce) in
+                let sp = { ch_N = nat_of_int n; ch_caps = caps; ch_nsav = nsav; ch_lazy = (lz <> 0); ch_relay = (relay <> 0) } in
+                let nt = chain_net sp (fx <> 0) fault cfault and st0 = chain_init sp (fx <> 0) fault cfault in
+                Digest.to_hex (Digest.string (Marshal.to_string (nt, st0) [Marshal.No_sharing])) ^ " " ^ string_of_int (int_of_nat (chain_main sp))
+            | _ -> "BAD")
+       | _ -> "BAD")
+  | "family" :: "fan" :: rest ->
+      (* family fan fx N cap lazy side_first savx savy relay ft fp fc ck cc ce *)
+      (match ints rest with
+       | fx :: n :: cap :: lz :: sf :: sx :: sy :: relay :: ft :: fp :: fc :: ck :: cc :: ce :: _ ->
+           let fault = if ft < 0 then None else Some ((nat_of_int ft, nat_of_int fp), nat_of_int fc) in
+           let cfault = if ck < 0 then None else Some ((nat_of_int ck, cc <> 0), nat_of_int ce) in
+           let sp = { fn_N = nat_of_int n; fn_cap = nat_of_int cap; fn_lazy = (lz <> 0); fn_side_first = (sf <> 0);
+                      fn_savx = nat_of_int sx; fn_savy = nat_of_int sy; fn_relay = (relay <> 0) } in
+           let nt = fan_net sp (fx <> 0) fault cfault and st0 = fan_init sp (fx <> 0) fault cfault in
+           Digest.to_hex (Digest.string (Marshal.to_string (nt, st0) [Marshal.No_sharing])) ^ " " ^ string_of_int (int_of_nat (fan_main sp))
+       | _ -> "BAD")
+  | "netx" :: rest ->
+      let (nt, st0, n, main, r) = read_net (ints rest) in
+      (match r with
+       | mx :: _ -> explore nt st0 n main mx
        | _ -> "BAD")
   | _ -> "UNKNOWN"
 let () = main_loop handle
